@@ -1,4 +1,4 @@
-Require Import Base.Bytes Net.Frame Net.FrameProofs Net.Framed Net.FramedProofs Net.Adaptor Net.AdaptorSession Net.Concrete.
+Require Import Base.Bytes Net.Frame Net.FrameProofs Net.Framed Net.FramedProofs Net.Adaptor Net.AdaptorSession Net.Concrete Net.Async Net.AsyncProofs Net.AsyncConvProofs.
 Require Import Props.C20.
 Local Open Scope N_scope.
 Check c20_session_any_partition :
@@ -50,9 +50,19 @@ Check c20_adaptor_loses_nothing : forall eof sizes buf items,
 Check c20_write_is_one_message : forall frame, frame <> [] ->
   fst (awrite frame) = [IBytes frame] /\
   write_all [WAccept (pred (snd (awrite frame)))] frame = (frame, WOk, []).
+Check c20_messages_are_whole_frames_under_cancellation_and_writes :
+  forall (packet : Type) (parse : bytes -> res packet) (ver_of : packet -> option N)
+         (is_keepalive : packet -> bool) (version : N) (m : mode) (verify : bool) (pong : bytes),
+  forall n, (length pong <= n)%nat ->
+  forall fuel c s rs ws cancels wsched,
+    forallb (msg_ev n) ws = true ->
+    Inv packet parse ver_of is_keepalive version m verify pong c s ->
+    Whole packet pong s -> (pend_p s = None -> pend_w s = []) ->
+    Forall (tok_whole packet pong) (aconv packet parse ver_of is_keepalive version m verify pong fuel c s rs ws cancels wsched []).
 Print Assumptions c20_session_any_partition.
 Print Assumptions c20_equals_tcp.
 Print Assumptions c20_non_binary_ignored.
 Print Assumptions c20_closure_disconnects.
 Print Assumptions c20_adaptor_loses_nothing.
 Print Assumptions c20_write_is_one_message.
+Print Assumptions c20_messages_are_whole_frames_under_cancellation_and_writes.
